@@ -4,7 +4,7 @@
 wt=$1; sd=$2; crate=${3:-wow_world_messages}
 cd "$wt" || exit 9
 git checkout -q -- . ; rm -rf $crate/tests
-cmd=$(grep -h "cargo test" "$sd/README.md" | head -1 | sed 's/^ *//; s/`//g')
+cmd=$(grep -h "cargo test" "$sd/README.md" | head -1 | sed 's/`//g; s/^.*cargo test/cargo test/')
 demo=$(ls "$sd"/*.rs | head -1)
 mkdir -p $crate/tests && cp "$demo" $crate/tests/
 sh -c "$cmd" > "$sd/confirm_demo_clean.log" 2>&1; clean=$?
